@@ -157,7 +157,7 @@ def run_case(case):
     fin = case.get("fin", 1)
     keyspec = case.get("key")
     rand = case.get("rand", b"\x11\x22\x33\x44")
-    trace = bool(case.get("trace"))
+    trace = case.get("trace") or False  # True = enableTrace; "quiet" / "debug" / "werror" are set up by the runner
     obs = Obs()
 
     draws = []
@@ -204,7 +204,7 @@ def run_case(case):
     else:
         exp_payload = raw
 
-    if trace:
+    if trace is True:
         websocket.enableTrace(True, handler=_NULL)
     os.urandom = fake_urandom
     ret = None
@@ -230,7 +230,7 @@ def run_case(case):
                 ret = ws.send_frame(ABNF.create_frame(arg, opcode, fin))
         finally:
             os.urandom = real_urandom
-            if trace:
+            if trace is True:
                 websocket.enableTrace(False)
     except Exception as e:
         obs.fail(exc_bucket("raised", e), f"{type(e).__name__}: {e}")
@@ -293,7 +293,7 @@ def _classify(obs, case, api, op, fin, n, keyspec, ptype, trace):
     kk = "default" if keyspec is None else keyspec["kind"]
     distinct_key = keyspec is not None and len(set(keyspec["k"])) == 4 and 0 not in keyspec["k"]
     nt = n >= 126 or op in rm.CONTROL_OPS or (n % 4 != 0 and distinct_key) or keyspec is None
-    obs.cls = (api, _lclass(n), f"key:{kk}", f"ptype:{ptype}", f"trace:{int(trace)}", f"op:{op}", f"mod4:{n % 4}")
+    obs.cls = (api, _lclass(n), f"key:{kk}", f"ptype:{ptype}", f"trace:{int(trace) if isinstance(trace, bool) else trace}", f"op:{op}", f"mod4:{n % 4}")
     obs.nt = (api, op, fin, n, kk, ptype, trace) if nt else None
     return obs
 
@@ -334,7 +334,7 @@ _text = st.text(alphabet=st.characters(exclude_categories=["Cs"]), max_size=40)
 @st.composite
 def cases(draw):
     api = draw(st.sampled_from(APIS))
-    case = {"api": api, "key": draw(_keys), "trace": draw(st.booleans()), "rand": draw(st.binary(min_size=4, max_size=4))}
+    case = {"api": api, "key": draw(_keys), "trace": draw(st.sampled_from([False] * 6 + [True, True, "quiet", "debug", "werror"])), "rand": draw(st.binary(min_size=4, max_size=4))}
     control = api in ("ping", "pong")
     if api in ("send", "send_frame"):
         case["opcode"] = draw(st.sampled_from(rm.KNOWN_OPS))
